@@ -16,7 +16,7 @@ PROPS['C02'] = dict(
                  'a single allocation request > 256 MiB, or > 64 MiB live-heap growth, inside one loader call for an input <= 64 KiB counts as disproportionate memory',
                  '*error may stay untouched or be set to WOPN_ERR_OK when a bank is accepted; 0 or -1 for an empty block; version reported by an accepted file; noteOn return value (all three-valued)'],
     stages=[
-        dict(name='fuzz', variant='asan', harness='c02_banks.cpp', quick=12000, thorough=120000),
+        dict(name='fuzz', variant='asan', harness='c02_banks.cpp', quick=24000, thorough=240000),
         dict(name='sweep', variant='asan', harness='c02_banks.cpp', quick=8000, thorough=8000, opts=dict(step=37)),        # space = 7934 cases
         dict(name='sweep-dense', variant='asan', harness='c02_banks.cpp', quick=0, thorough=27600, opts=dict(step=7)),  # space = 27564 cases
         dict(name='play', variant='asan', harness='c02_banks.cpp', quick=3000, thorough=30000),
